@@ -45,6 +45,7 @@ fn main() {
             }
         }
         "recipe" => recipe_dbg(a[2].parse().unwrap()),
+        "c02kind" => c02_kind(a[2].parse().unwrap()),
         _ => {}
     }
 }
@@ -73,4 +74,18 @@ pub fn recipe_dbg(run: u64) {
     }
     let (p, w) = b.redeem.to_vec_with_witness();
     println!("{} {}", vsim::stream::hex(&p), vsim::stream::hex(&w));
+}
+
+#[allow(dead_code)]
+pub fn c02_kind(run: u64) {
+    use vsim::gen::programs::{self, Family};
+    use vsim::rng::{mix, Rng};
+    let mut r = Rng::new(mix(1, "c02-streamsim", run));
+    let family = if r.chance(1, 3) { Family::Elements } else { Family::Core };
+    let kind = r.weighted(&[60, 6, 8, 6, 10, 6, 3, 3]);
+    println!("run {} family {:?} kind {}", run, family, kind);
+    if kind == 6 {
+        let rec = programs::source_bomb_recipe(&mut r, family);
+        println!("{:?}", rec);
+    }
 }
